@@ -9,7 +9,7 @@ from ..runner import Part, Violation
 
 ID = "C03"
 RULE = ("valid reference-rich documents (paths over links stored in either complement form, groups over "
-        "groups, fragments, gaps) and permutations of their lines: random shuffles, reversal, 'referencing "
+        "groups, fragments, gaps; a quarter of the GFA1 documents crowded with parallel links and paths naming their overlaps) and permutations of their lines: random shuffles, reversal, 'referencing "
         "records first', 'segments last' (quick) and ALL n! orders for documents of <= 6 lines (thorough part "
         "'all-orders', exhaustive per document); each order is loaded with automatic version detection; oracle = "
         "full observation equal to that of the generation order AND no placeholder left AND back-reference "
@@ -117,11 +117,44 @@ def _targeted(r, doc):
     return idx, "random"
 
 
+def _multi_link_doc(r, small=False):
+    """GFA1 documents crowded with parallel links (same oriented ends, different overlaps, either form) and paths
+    that name their overlaps: which link a path step means depends on the overlap alone."""
+    from . import c12
+    for _ in range(30):
+        lines = c12.build_multi(r)
+        if not small or len(lines) <= 6:
+            break
+    recs = [G.split_line(x, "gfa1") for x in lines]
+    seen, out = set(), []
+    for x in recs:
+        if x.rt == "L":
+            k = M.link_form_key(x.pos)
+            if k in seen:
+                continue  # (this check compares with the document as written: one form per link)
+            seen.add(k)
+        out.append(x)
+    if small:
+        used = set(mm[0] for x in out for mm in M.mentions(x))
+        out = [x for x in out if x.rt != "S" or x.pos[0] in used][:6]
+        m = M.ModelDoc("gfa1", out)
+        while not m.is_closed():
+            und = m.undefined_mentions()
+            ml = [p_ for p_, _s in m.missing_links()]
+            m.recs = [x for x in m.recs if not any(mm[0] in und for mm in M.mentions(x)) and not any(x is p_ for p_ in ml)]
+        out = m.recs
+    return {"version": "gfa1", "lines": [x.plain() for x in out]}
+
+
 @st.composite
 def st_case(draw):
     r = draw(st.randoms(use_true_random=False))
     v = gen.choice(r, ["gfa1", "gfa2"])
-    doc = gen.build_gfa1(r, DOC_OPTS) if v == "gfa1" else gen.build_gfa2(r, DOC_OPTS)
+    if gen.chance(r, 0.25):
+        v = "gfa1"
+        doc = _multi_link_doc(r)
+    else:
+        doc = gen.build_gfa1(r, DOC_OPTS) if v == "gfa1" else gen.build_gfa2(r, DOC_OPTS)
     perm, kind = _targeted(r, doc)
     return {"doc": {"version": v, "lines": doc["lines"]}, "perm": perm, "kind": kind,
             "cfg": {"vlevel": gen.choice(r, [0, 1, 1, 2, 3]), "explicit": gen.chance(r, 0.3)}}
@@ -132,6 +165,8 @@ def st_small(draw):
     r = draw(st.randoms(use_true_random=False))
     v = gen.choice(r, ["gfa1", "gfa2"])
     o = dict(DOC_OPTS, nseg=(1, 2), headers=False, comments=False, tags=False)
+    if gen.chance(r, 0.3):
+        return {"doc": _multi_link_doc(r, small=True), "cfg": {"vlevel": 1, "explicit": False}}
     for _ in range(20):
         doc = gen.build_gfa1(r, o) if v == "gfa1" else gen.build_gfa2(r, o)
         if 3 <= len(doc["lines"]) <= 6:
